@@ -151,6 +151,14 @@ func FormatErrorWithMapper(zodErr *ZodError, mapper func(ZodIssue) string) ZodFo
 
 				currMap, ok := curr[key].(ZodFormattedError)
 				if !ok {
+					// key is the reserved "_errors": the report cannot hold a child of
+					// that name. The segment is skipped; when it is the last one the
+					// message is kept on the enclosing node instead of being dropped.
+					if i == len(path)-1 {
+						if errors, ok := curr["_errors"].([]string); ok {
+							curr["_errors"] = append(errors, mapper(issue))
+						}
+					}
 					continue
 				}
 
